@@ -452,8 +452,17 @@ ErrorCode Library::write_oas(const char* filename, double circle_tolerance,
     oasis_write_real(out, 1e-6 / precision);
     oasis_putc(1, out);  // flag indicating that table-offsets will be stored in the END record
 
+    // Standard properties describe the file being written: values loaded from another file (or left by a
+    // previous call) are dropped even when this call is not asked to compute them
+    remove_property(properties, s_top_level_property_name, true);
+    remove_property(properties, s_bounding_box_available_property_name, true);
+    remove_property(properties, s_max_int_size_property_name, true);
+    remove_property(properties, s_max_uint_size_property_name, true);
+    remove_property(properties, s_max_string_size_property_name, true);
+    remove_property(properties, s_max_polygon_property_name, true);
+    remove_property(properties, s_max_path_property_name, true);
+
     if (state.config_flags & OASIS_CONFIG_PROPERTY_TOP_LEVEL) {
-        remove_property(properties, s_top_level_property_name, true);
         Array<Cell*> top_cells = {};
         Array<RawCell*> top_rawcells = {};
         top_level(top_cells, top_rawcells);
@@ -478,7 +487,6 @@ ErrorCode Library::write_oas(const char* filename, double circle_tolerance,
     }
 
     if (state.config_flags & OASIS_CONFIG_PROPERTY_BOUNDING_BOX) {
-        remove_property(properties, s_bounding_box_available_property_name, true);
         set_property(properties, s_bounding_box_available_property_name, (uint64_t)2, true);
     }
 
@@ -590,19 +598,10 @@ ErrorCode Library::write_oas(const char* filename, double circle_tolerance,
         }
         tmp_array.clear();
 
-        remove_property(properties, s_max_int_size_property_name, true);
         set_property(properties, s_max_int_size_property_name, (uint64_t)sizeof(int64_t), true);
-
-        remove_property(properties, s_max_uint_size_property_name, true);
         set_property(properties, s_max_uint_size_property_name, (uint64_t)sizeof(uint64_t), true);
-
-        remove_property(properties, s_max_string_size_property_name, true);
         set_property(properties, s_max_string_size_property_name, string_max, true);
-
-        remove_property(properties, s_max_polygon_property_name, true);
         set_property(properties, s_max_polygon_property_name, polygon_max, true);
-
-        remove_property(properties, s_max_path_property_name, true);
         set_property(properties, s_max_path_property_name, path_max, true);
     }
 
@@ -824,6 +823,7 @@ ErrorCode Library::write_oas(const char* filename, double circle_tolerance,
         oasis_write_unsigned_integer(out, len);
         oasis_write(name_, 1, len, out);
 
+        remove_property(cell->properties, s_bounding_box_property_name, true);
         if (state.config_flags & OASIS_CONFIG_PROPERTY_BOUNDING_BOX) {
             Vec2 bbmin, bbmax;
             GeometryInfo info = cell->bounding_box(cache);
@@ -838,7 +838,6 @@ ErrorCode Library::write_oas(const char* filename, double circle_tolerance,
             int64_t ymin = llround(bbmin.y * state.scaling);
             uint64_t width = llround(bbmax.x * state.scaling) - xmin;
             uint64_t height = llround(bbmax.y * state.scaling) - ymin;
-            remove_property(cell->properties, s_bounding_box_property_name, true);
             set_property(cell->properties, s_bounding_box_property_name, height, true);
             set_property(cell->properties, s_bounding_box_property_name, width, false);
             set_property(cell->properties, s_bounding_box_property_name, ymin, false);
